@@ -2,7 +2,7 @@
    Statements only; proofs in Proofs/WritersProofs.v and Proofs/C13PoolProofs.v (WebSocket half:
    the pooled staging buffers, at the end of this file). *)
 From Coq Require Import ZArith List Bool.
-From V Require Import Bytes Writers WritersProofs C13Pool C13PoolProofs.
+From V Require Import Bytes Writers WritersProofs C13Pool C13PoolProofs C13Shared C13SharedProofs.
 Import ListNotations.
 Open Scope Z_scope.
 
@@ -217,3 +217,60 @@ Example C13_pool_nonvacuous :
   map snd (on_conn 0 (ps_out s)) = [resp_txt; resp_txt; [79; 75]%Z] /\
   ok_pool good_progs (pobserve [0; 1] s) (ps_pool s) = true.
 Proof. exact good_progs_run. Qed.
+
+(* ================= a frame is read twice from a shared packet =================
+   Model/C13Shared.v: rtp.Packet.Write reads len(p.Data) for the prefix and p.Data again for the body; the
+   published packet is one object shared with every other viewer's goroutine and the stream's demuxer.
+   [ops] is any sequence of prefix-reads, body-reads, reads and in-place trims by any number of goroutines.
+   Under the discipline "nobody mutates a published packet" every frame announces the length of its body,
+   the body is the published packet, and the chunks on the wire are the immutable message of Writers.v. *)
+Theorem C13_shared_frames_consistent : forall st0 ops,
+  packets_immutable ops = true ->
+  forall f, In f (s_out (srun ops (sinit st0))) ->
+    f_len f = length (f_body f) /\ f_body f = st0 (f_pkt f).
+Proof. exact shared_frames_consistent. Qed.
+Print Assumptions C13_shared_frames_consistent.
+
+Theorem C13_shared_frames_are_values : forall st0 ops ch,
+  packets_immutable ops = true ->
+  forall f, In f (s_out (srun ops (sinit st0))) ->
+    frame_msg ch (f_len f) (f_body f) = frame_msg ch (length (st0 (f_pkt f))) (st0 (f_pkt f)).
+Proof. exact shared_frames_are_values. Qed.
+Print Assumptions C13_shared_frames_are_values.
+
+Theorem C13_shared_packets_unchanged : forall st0 ops,
+  packets_immutable ops = true -> forall i, s_store (srun ops (sinit st0)) i = st0 i.
+Proof. exact shared_packets_unchanged. Qed.
+Print Assumptions C13_shared_packets_unchanged.
+
+Theorem C13_model_passes_shared : forall st0 ops,
+  packets_immutable ops = true -> ok_frames st0 (s_out (srun ops (sinit st0))) = true.
+Proof. exact shared_model_passes. Qed.
+Print Assumptions C13_model_passes_shared.
+
+(* padding stripped by re-slicing the shared packet, between prefix and body: 6 announced, 4 sent *)
+Theorem C13_shared_trim_refuted :
+  let st0 := fun i => match i with O => padded_pkt | _ => [] end in
+  let ops := [SLen 0 0; STrim 0 2; SBody 0] in
+  let s := srun ops (sinit st0) in
+  packets_immutable ops = false /\
+  map (fun f => (f_len f, length (f_body f))) (s_out s) = [(6, 4)] /\
+  ok_frames st0 (s_out s) = false /\ ok_pure [st0 0] [s_store s 0] = false.
+Proof. exact trim_between_prefix_and_body_refuted. Qed.
+Print Assumptions C13_shared_trim_refuted.
+
+Theorem C13_shared_trim_before_refuted :
+  let st0 := fun i => match i with O => padded_pkt | _ => [] end in
+  let s := srun [STrim 0 2; SLen 0 0; SBody 0] (sinit st0) in
+  map (fun f => (f_len f, length (f_body f))) (s_out s) = [(4, 4)] /\ ok_frames st0 (s_out s) = false.
+Proof. exact trim_before_prefix_refuted. Qed.
+Print Assumptions C13_shared_trim_before_refuted.
+
+Example C13_shared_nonvacuous :
+  let st0 := fun i => match i with O => padded_pkt | _ => [9; 9]%Z end in
+  let ops := [SLen 0 0; SLen 1 0; SRead 0; SBody 1; SLen 1 1; SRead 1; SBody 0; SBody 1] in
+  let s := srun ops (sinit st0) in
+  packets_immutable ops = true /\
+  map (fun f => (f_writer f, f_pkt f, f_len f)) (s_out s) = [(1, 0, 6); (0, 0, 6); (1, 1, 2)] /\
+  ok_frames st0 (s_out s) = true.
+Proof. exact shared_nonvacuous. Qed.
